@@ -5,7 +5,18 @@ memfs.Filespace / FilespaceWrapper, raw path bytes in, Go control flow) refines 
 specification lean/Goat/Spec/FS.lean for every call, every history (`∀ ops : List …`), every path
 spelling and every view depth.
 
-Correspondence (every run): harness/cmd/fs `drive` (real memfs) against the compiled model `m_fs` on
+Snapshot clause: lean/Goat/Model/MemFSHeap.lean is a second, heap-level model of the same Go code (every
+slice is an object with an id, the caller holds handles and may write through them at any time); section 5
+of Props/C01.lean proves on it, for all histories, the separation invariant (`snapshot_inv`), the simulation
+heap model = value model (`snapshot_sim`), and the three sentences of the clause (`handed_out_stable`,
+`handed_in_stable`, `copy_shares_nothing`), plus `handed_out_shows_result` and `listing_sync` (a directory's
+node array always holds the directory's entries); `snapshot_prefix_variant_false` shows the invariant false
+for the code before c1f9074/e4e01df.
+
+Correspondence (every run, THREE-way): harness/cmd/fs `drive` (real memfs) against the compiled value model
+`m_fs` AND against the compiled heap model `m_fsheap` (same op lines; in `m_fsheap` the probes keep/mutate/
+recheck act on heap objects of the model, so an alias in the implementation that the model does not have —
+or the reverse — is a differing `recheck`/`readfile`/`readdir`/`dump` line) on
   (a) the corpus, (b) `pathenum`: path.Clean / CleanPath / ReduceAbsPath on every string up to a bound
   over {a . /}, (c) sharded random histories (16 methods, child views at any depth, all spellings,
   alias probes keep/mutate/recheck, full `dump` walks), (d) every op sequence of length <= 2 (quick) /
@@ -34,14 +45,27 @@ META = dict(
              "real sibling names) is preserved, lifted by induction to all op lists over a root filespace and "
              "child views of any depth, with the property's sentences as corollaries (write_creates_parents, "
              "write_replaces, mkdir_idempotent, remove_only_file_or_empty_dir, removeAll_subtree, copy_deep, "
-             "queries_agree, no_phantom).  The model is tied to /repo on every run by a differential over random "
-             "histories (all 16 methods, all spellings, views, alias probes) and an exhaustive small scope.",
+             "queries_agree, no_phantom).  The snapshot clause is proved on a second, heap-level model of the same "
+             "code (slices are heap objects, the caller holds handles and writes through them anywhere in a "
+             "history): separation invariant on all histories (snapshot_inv: caller-held ids and tree ids are "
+             "disjoint, no id at two tree positions), simulation heap model = value model on all histories "
+             "(snapshot_sim), handed_out_stable, handed_in_stable, copy_shares_nothing, listing_sync (node arrays "
+             "in step with the tree), and the invariant disproved for the pre-fix code "
+             "(snapshot_prefix_variant_false).  Both models are tied to /repo on "
+             "every run by a three-way differential over random histories (all 16 methods, all spellings, views, "
+             "alias probes) and an exhaustive small scope.",
         design_ref="DESIGN.md 3 C01"),
-    level_note="Trusted: Lean kernel (axioms propext/Classical.choice/Quot.sound only); the hand-written model's "
+    level_note="Trusted: Lean kernel (axioms propext/Classical.choice/Quot.sound only); the two hand-written models' "
                "correspondence to /repo (differential; generator reach printed in the histogram); Go slice/map "
-               "semantics as modelled. The snapshot clause (handed-in/out byte slices and listings never alias) is "
-               "NOT a theorem: the value-level model cannot alias, the heap-level model of DESIGN was cut, so "
-               "snapshotness is decided by the alias probes of the correspondence and of the oracle only.",
+               "semantics as modelled. The snapshot clause is a theorem about the heap-level model "
+               "(Model/MemFSHeap.lean), for every `append` growth policy; that this model places its copies and its "
+               "sharing where memfs does (WriteFile/setData/getData/getNodes/copyFile copy, removeNodeByName shifts in "
+               "place, Writer installs a fresh slice) is read off the source (file:line table in the model's header) "
+               "and checked by the alias-probe differential implementation vs m_fsheap, not proved. Trusted about Go: "
+               "`make`+`copy` yields storage disjoint from everything else, `append` writes only into its first "
+               "argument's array or a fresh one and only reads its second, the os.FileInfo interface gives no write "
+               "access to a node. Not in the heap model: a caller buffer passed to Reader.Read that is also held "
+               "elsewhere (Read buffers are fresh), capacity-dependent behaviour of code that is not in /repo now.",
     technique="Lean 4 proof (refinement to a point-wise spec, induction over histories) + differential "
               "correspondence (random + exhaustive small scope) + reference oracle",
 )
@@ -125,8 +149,17 @@ def _history_at(ops, idx):
     return cur
 
 
-def _shard(ctx, go, model, kind, n, shard):
-    """one shard of a campaign: generate, run both sides, compare.  Returns a dict."""
+def _heap_out(ctx, heap, ops, tag):
+    """run the heap-level model on an op file; returns its output path"""
+    c = ctx.path(tag + ".heap")
+    rc, err = _sh(ctx, [heap], stdin=ops, stdout=c)
+    if rc != 0:
+        raise RuntimeError("heap model driver failed rc=%d %s" % (rc, err[-500:]))
+    return c
+
+
+def _shard(ctx, go, model, kind, n, shard, heap=None):
+    """one shard of a campaign: generate, run all sides, compare.  Returns a dict."""
     tag = "%s%02d" % (kind, shard)
     ops, gstat = ctx.path(tag + ".ops"), ctx.path(tag + ".gstat")
     rc, err = _sh(ctx, [go, "gen" if kind == "rand" else "genx", str(n), str(shard), str(NSHARDS)],
@@ -140,9 +173,15 @@ def _shard(ctx, go, model, kind, n, shard):
         return dict(kind=kind, shard=shard, ops=ops, diff="timeout", gstat="",
                     stats=dict(histories=0, nontrivial=0, lines=0, histogram={}))
     d = _first_diff(a, b)
-    res = dict(kind=kind, shard=shard, ops=ops, impl=a, model=b, diff=d, stats=json.load(open(stats)),
-               gstat=open(gstat).read())
-    if d is None and not (kind == "rand" and shard == 0):
+    hd, c = None, None
+    if heap:
+        c = _heap_out(ctx, heap, ops, tag)
+        hd = _first_diff(a, c)
+    res = dict(kind=kind, shard=shard, ops=ops, impl=a, model=b, diff=d, hdiff=hd, stats=json.load(open(stats)),
+               gstat=open(gstat).read(), heap_lines=ctx.count_lines(c) if c else 0)
+    if c:
+        os.unlink(c)
+    if d is None and hd is None and not (kind == "rand" and shard == 0):
         for f in (ops, a, b):
             os.unlink(f)
     return res
@@ -270,6 +309,7 @@ def run(ctx):
     failed = ctx.lean_obligations()
     go = ctx.build_go("fs")
     model = ctx.build_model("m_fs")
+    heap = ctx.build_model("m_fsheap")
     n_rand = ctx.pick(3000, 300000)
     n_exh = ctx.pick(2, 3)
     n_path = ctx.pick(8, 11)
@@ -304,10 +344,15 @@ def run(ctx):
                               annotations=["impl:  " + la[d], "model: " + lb[d]], concrete=False)
             else:
                 concrete_found |= _judge(ctx, go, model, _history_at(ops, d), "corpus")
+        c = _heap_out(ctx, heap, ops, "corpus")
+        hd = _first_diff(a, c)
+        heap_lines = ctx.count_lines(c)
+        if hd is not None and d is None:
+            concrete_found |= _judge(ctx, go, heap, _history_at(ops, hd), "corpus (heap-level model m_fsheap)")
         # --- random + exhaustive campaigns, sharded over the cores
         jobs = [("rand", n_rand, s) for s in range(NSHARDS)] + [("exh", n_exh, s) for s in range(NSHARDS)]
         with concurrent.futures.ThreadPoolExecutor(NSHARDS) as ex:
-            results = list(ex.map(lambda j: _shard(ctx, go, model, *j), jobs))
+            results = list(ex.map(lambda j: _shard(ctx, go, model, *j, heap=heap), jobs))
     except RuntimeError as e:
         ctx.fatal(str(e))
     judged = 0
@@ -341,10 +386,21 @@ def run(ctx):
             judged += 1
             concrete_found |= _judge(ctx, go, model, _history_at(r["ops"], r["diff"]),
                                      "%s shard %d" % (r["kind"], r["shard"]))
+        elif r.get("hdiff") is not None and judged < 3:
+            # implementation and value model agree, the heap-level model answers differently
+            judged += 1
+            concrete_found |= _judge(ctx, go, heap, _history_at(r["ops"], r["hdiff"]),
+                                     "%s shard %d (heap-level model m_fsheap)" % (r["kind"], r["shard"]))
+        heap_lines += r.get("heap_lines", 0)
     for k, v in gen_counts.items():
         ctx.histogram["gen:" + k] = v
     ctx.extra["random_run"] = rnd
     ctx.extra["exhaustive_run"] = exh
+    ctx.extra["heap_model"] = dict(driver="m_fsheap", result_lines_compared=heap_lines,
+                                   shards_differing=sum(1 for r in results if r.get("hdiff") is not None),
+                                   note="every op file of the corpus, the random and the exhaustive campaign is also "
+                                        "run through the heap-level model; its result stream is compared line by line "
+                                        "with the implementation's")
     ctx.exhaustive = False  # the enumerated scope is complete to its bound; the property's domain is unbounded
     ctx.distinct_extra = exh["nontrivial"]  # enumerated sequences are distinct by construction
     ctx.extra["distinct_nontrivial_breakdown"] = dict(random=len(ctx.distinct), enumerated=exh["nontrivial"])
@@ -376,14 +432,26 @@ def run(ctx):
     except RuntimeError as e:
         ctx.fatal(str(e))
     ctx.assumptions += [
-        "Go slices and maps behave as values in the model (no aliasing): the snapshot clause is checked by the alias "
-        "probes (keep/mutate/recheck) of the correspondence and of the oracle, not proved",
+        "value model: Go slices and maps behave as values (no aliasing).  heap model (snapshot clause): `make`+`copy` "
+        "gives storage disjoint from everything allocated before; `append(s, x...)` writes only into the array of s "
+        "(when it has room) or into a fresh array, and only reads x; which of the two happens is a parameter "
+        "(`Cfg.realloc`) the theorems quantify over; `append(a[:i], a[i+1:]...)` shifts inside the array of a",
+        "heap model: a directory carries both its node array (heap object) and the logical content `k` of "
+        "d.nodes[:len]; ReadDir copies `k.entries` and removeNodeByName takes the position from `k` — proved equal to "
+        "reading the array (listing_sync) for the repaired code; Reader.Read buffers are fresh caller buffers; "
+        "os.FileInfo values of listings are observed as (Name, IsDir) and give no write access",
+        "the tie heap model <-> /repo is the differential implementation vs m_fsheap with alias probes "
+        "(keep/mutate/recheck after write, writer, readfile, readdir, reader), the copy/share points are listed with "
+        "file:line in lean/Goat/Model/MemFSHeap.lean",
         "the harness observes the filespace through the public interface only; FileInfo of listed entries is observed "
         "as (Name, IsDir), Lstat as (Name, IsDir, Size of a file)",
         "Writer/Reader handles are used atomically (open, writes/reads, close)",
     ]
     ctx.trusted_base.append("the flat Go reference of `fs oracle` (written from the property's sentences) as second "
                             "opinion when implementation and model differ")
+    ctx.trusted_base.append("Go slice semantics as modelled in Model/MemFSHeap.lean (append into spare capacity or a "
+                            "fresh array, copy, re-slicing); placement of copies in the heap model = placement in "
+                            "memfs (differential only)")
     if failed:
         ctx.obligation_violations(failed, searcher=lambda: concrete_found)
     if not ctx.quick():
@@ -395,16 +463,20 @@ def run(ctx):
 def replay(ctx, path):
     go = ctx.build_go("fs")
     model = ctx.build_model("m_fs")
+    heap = ctx.build_model("m_fsheap")
     ops = ctx.path("replay.ops")
     open(ops, "w").write("\n".join(lib.replay_ops(path)) + "\n")
     a, b = _pair(ctx, go, model, ops, "replay")
+    c = _heap_out(ctx, heap, ops, "replay")
     rc = 0
     lines = [l for l in open(ops).read().split("\n") if l]
-    for o, x, y in zip(lines, open(a).read().split("\n"), open(b).read().split("\n")):
+    for o, x, y, z in zip(lines, open(a).read().split("\n"), open(b).read().split("\n"),
+                          open(c).read().split("\n")):
         print("op    ", o[:300])
         print("impl  ", x[:300])
         print("model ", y[:300])
-        if x != y or x in ("panic", "hang"):
+        print("heap  ", z[:300])
+        if x != y or x != z or x in ("panic", "hang"):
             rc = 1
     out = ctx.path("replay.ref")
     _sh(ctx, [go, "refcheck"], stdin=ops, stdout=out)
@@ -413,5 +485,5 @@ def replay(ctx, path):
             print("ref   ", l.rstrip("\n")[:400])
             if l.startswith("FAIL"):
                 rc = 1
-    print("replay:", "still failing" if rc else "implementation, model and reference agree")
+    print("replay:", "still failing" if rc else "implementation, both models and reference agree")
     return rc
